@@ -53,7 +53,7 @@ func (f *failWriter) Write(p []byte) (int, error) {
 }
 
 // entry points that copy what they decode (the others borrow the caller's bytes by contract)
-var copying = map[string]bool{"readfrom": true, "readfromck": true, "must": true, "mustck": true, "unmarshal": true, "base64": true}
+var copying = map[string]bool{"readfrom": true, "readpipe": true, "readfromck": true, "must": true, "mustck": true, "unmarshal": true, "base64": true}
 
 func optInt(a []string, key string, def int) int {
 	for _, s := range a {
@@ -82,6 +82,10 @@ func decodeInto(e *env, y *roaring.Bitmap, entry string, data []byte, chunk int)
 		cr := &chunkReader{data: data, chunk: chunk}
 		n, err = y.ReadFrom(cr)
 		pulled = cr.off
+	case "readpipe":
+		var rest int
+		n, rest, err = viaPipe(data, func(r io.Reader) (int64, error) { return y.ReadFrom(r) })
+		pulled = len(data) - rest
 	case "readfromck":
 		// the caller has already consumed the 4-byte cookie and hands it over separately; the byte counts are reported
 		// relative to the whole stream (cookie included) so that they compare with the other entry points
